@@ -116,15 +116,34 @@ func newHub() *Hub {
 // StubConsensus accepts every block and always allows reorganisation (longest chain only).
 type StubConsensus struct {
 	Updates []types.BlockNo
+	Last    *types.Block // block of the most recent Update
+	Veto    func(rootNo types.BlockNo) bool
 }
 
 func (s *StubConsensus) IsTransactionValid(tx *types.Tx) bool                   { return true }
 func (s *StubConsensus) VerifyTimestamp(block *types.Block) bool                { return true }
 func (s *StubConsensus) VerifySign(block *types.Block) error                    { return nil }
 func (s *StubConsensus) IsBlockValid(block *types.Block, best *types.Block) error { return nil }
-func (s *StubConsensus) Update(block *types.Block)                              { s.Updates = append(s.Updates, block.BlockNo()) }
+
+// Update mirrors what the DPoS status does with the process-wide system parameters: a block
+// connected on top of the previous one activates parameter changes voted in it, anything else
+// (a rollback) discards pending ones.
+func (s *StubConsensus) Update(block *types.Block) {
+	s.Updates = append(s.Updates, block.BlockNo())
+	if s.Last != nil && s.Last.ID() == block.PrevID() {
+		system.CommitParams(true)
+	} else {
+		system.CommitParams(false)
+	}
+	s.Last = block
+}
 func (s *StubConsensus) Save(tx consensus.TxWriter) error                       { return nil }
-func (s *StubConsensus) NeedReorganization(rootNo types.BlockNo) bool           { return true }
+func (s *StubConsensus) NeedReorganization(rootNo types.BlockNo) bool {
+	if s.Veto != nil {
+		return !s.Veto(rootNo)
+	}
+	return true
+}
 func (s *StubConsensus) Info() string                                           { return "" }
 func (s *StubConsensus) GetType() consensus.ConsensusType                       { return consensus.ConsensusSBP }
 func (s *StubConsensus) NeedNotify() bool                                       { return true }
